@@ -108,9 +108,21 @@ func ruleOwn(p *Prog, r *RuleResult) {
 			if pr, ok := v.(*ssa.Parameter); ok && builder != pb && bcall != nil {
 				for i, q := range builder.Params {
 					if q == pr && i < len(bcall.Common().Args) {
-						return bcall.Common().Args[i]
+						v = bcall.Common().Args[i]
 					}
 				}
+			}
+			// the launcher itself may be a helper of processBlock: its parameters are the arguments of that call
+			if pr, ok := v.(*ssa.Parameter); ok && pr.Parent() == pb && s.entry != pb {
+				eachInstr(s.entry, func(i ssa.Instruction) {
+					if c := callOf(i); c != nil && c.StaticCallee() == pb {
+						for k, q := range pb.Params {
+							if q == pr && k < len(c.Args) {
+								v = c.Args[k]
+							}
+						}
+					}
+				})
 			}
 			return v
 		}
@@ -476,7 +488,7 @@ func ruleJobsInert(p *Prog, r *RuleResult) {
 
 func ruleNondet(p *Prog, r *RuleResult) {
 	ws := resolveSide(p, "Writer")
-	roots := []*ssa.Function{ws.fn, p.Method("io", "Writer", "Write"), p.Method("io", "Writer", "Close"), ws.parent}
+	roots := []*ssa.Function{ws.fn, p.Method("io", "Writer", "Write"), p.Method("io", "Writer", "Close"), ws.parent, ws.entry}
 	if wh := p.MethodOpt("io", "Writer", "writeHeader"); wh != nil {
 		roots = append(roots, wh)
 	}
@@ -547,6 +559,10 @@ func ruleNondet(p *Prog, r *RuleResult) {
 				names, isBanned := banned[path]
 				if isBanned && (names == nil || names[o.Name()]) {
 					r.sink(k.key(fname, path+"."+o.Name()), p.IPos(i), fmt.Sprintf("%s.%s on the compression path: the output can differ between runs or machines", path, o.Name()))
+					return
+				}
+				if isMethodNamed(c, "sync", "Pool", "Get") {
+					r.sink(k.key(fname, "sync.Pool.Get"), p.IPos(i), "sync.Pool.Get on the compression path: the object handed out is whichever one an earlier block, stream or job left behind (or a fresh one after a GC), so any state in it that is not overwritten makes the output depend on the history of the process and on the job count")
 					return
 				}
 				if path == "time" && o.Name() == "Now" && o.Type().(*types.Signature).Recv() == nil {
